@@ -546,8 +546,9 @@ META = {
                 'histories on one Avoid::Router vs the extracted queue model (scene, connector ends, empty actionList), vs a fresh Router and vs '
                 'the extracted reference router optimum (route cost to 1e-6), route_ok on every route, bit-identical routes over empty transactions.',
         'design_ref': 'DESIGN.md 5.6'},
-    'level_note': 'partial: the refinement theorem covers the shape part of the scene (connector-end consolidation is covered by the correspondence '
-                  'only); the invisibility-graph bookkeeping (m_blocker, checkAllBlockedEdges), the clamped case of the reflection estimate and the '
+    'level_note': 'partial: the refinement theorem covers the whole scene, shapes and connector ends (queue_refines_sequential_full; pin-move '
+                  'updates are proved for the generalised update function, the op log has no pin-move op); the clamped reflection estimate is proved a lower '
+                  'bound (reflect_lower_bound_clamped); the invisibility-graph bookkeeping (m_blocker, checkAllBlockedEdges) and the '
                   'orthogonal optimum are exercised only through the history-vs-scratch comparison. Known finding F-b (degenerate chord) has its own '
                   'stream and classifier; F-g (stale routes, fixed in /repo) is kept as corpus regression entries. Trusted: Coq kernel, extraction, '
                   'drivers, the hand model\'s reading of router.cpp (validated against the implementation on every run).',
